@@ -994,3 +994,327 @@ Proof.
   - (* transparent *)
     cbn. destruct (contains bb p); [destruct (rrc_contains cf p)|]; reflexivity.
 Qed.
+
+(* the known-finding class: its negation says the fill area lies inside the stroke area *)
+Lemma K06_false_sub r st :
+  rr_ok (rr_fill_area r st) -> K06_rrect_fill_outside_stroke r st = false ->
+  forall p, rr_contains (rr_fill_area r st) p = true -> rr_contains (rr_stroke_area r st) p = true.
+Proof.
+  intros Hf K p Hp. unfold K06_rrect_fill_outside_stroke in K. cbv zeta in K.
+  destruct (rr_contains (rr_stroke_area r st) p) eqn:E; [reflexivity|].
+  assert (existsb (fun p => rr_contains (rr_fill_area r st) p && negb (rr_contains (rr_stroke_area r st) p))
+            (points (rr_bounding_box (rr_fill_area r st))) = true) as X; [|congruence].
+  apply existsb_exists. exists p. split.
+  - apply points_spec; [apply Hf|]. apply rr_contains_in_bbox; assumption.
+  - rewrite Hp, E. reflexivity.
+Qed.
+
+(* C06: outside the class, draw() paints exactly what fill_area()/stroke_area() say *)
+Theorem rr_styled_spec r st bb p :
+  styled_ok r st -> K06_rrect_fill_outside_stroke r st = false ->
+  pix_get (writes_of_calls bb (rr_draw r st)) p =
+  if contains bb p
+  then spec_c06 st (rr_contains (rr_stroke_area r st)) (rr_contains (rr_fill_area r st)) p
+  else None.
+Proof.
+  intros Hok K. rewrite rr_draw_pixmap by assumption. destruct (contains bb p); [|reflexivity].
+  pose proof (K06_false_sub r st (proj2 Hok) K p) as Hsub.
+  unfold spec_draw, spec_c06, effective_stroke_color.
+  destruct (rr_contains (rr_fill_area r st) p) eqn:Hf.
+  - rewrite Hsub by reflexivity. destruct (stroke_color st); [destruct (0 <? stroke_width st)|]; reflexivity.
+  - destruct (rr_contains (rr_stroke_area r st) p); cbn [andb];
+    destruct (stroke_color st); try destruct (0 <? stroke_width st); reflexivity.
+Qed.
+
+(* ---- pixels() ---- *)
+Lemma In_writes_of_pixels bb ps w : In w (writes_of_pixels bb ps) <-> contains bb (fst w) = true /\ In w ps.
+Proof. unfold writes_of_pixels. rewrite filter_In. tauto. Qed.
+
+Lemma In_scanline_pixels s c p c' : In (p, c') (colored c (scanline_points s)) <-> c' = c /\ covered s p.
+Proof.
+  rewrite In_colored. unfold scanline_points, covered. rewrite in_map_iff. split.
+  - intros (-> & x & <- & Hx). apply In_range in Hx. cbn [px py]. auto.
+  - intros (-> & Hy & Hx). split; [reflexivity|]. exists (px p). split; [destruct p as [qx qy]; cbn [px py] in *; subst; reflexivity|apply In_range; lia].
+Qed.
+
+Lemma In_flat_styled {B} cs cf (f : sscan -> list B) (w : B) :
+  In w (flat_map f (map (styled_scanline cf) (scanlines cs))) <->
+  exists s, In s (scanlines cs) /\ In w (f (styled_scanline cf s)).
+Proof.
+  rewrite in_flat_map. split.
+  - intros (ss & Hss & Hw). apply in_map_iff in Hss. destruct Hss as (s & <- & Hs). exists s. auto.
+  - intros (s & Hs & Hw). exists (styled_scanline cf s). split; [apply in_map; assumption|assumption].
+Qed.
+
+Lemma In_pixels_stroke cs cf sc p c' :
+  rrc_wf cs -> rrc_wf cf ->
+  (In (p, c') (flat_map (fun s => colored sc (scanline_points (ss_stroke_left s)) ++ colored sc (scanline_points (ss_stroke_right s)))
+                        (map (styled_scanline cf) (scanlines cs))) <->
+   c' = sc /\ rrc_contains cs p = true /\ rrc_contains cf p = false).
+Proof.
+  intros Ws Wf. rewrite In_flat_styled. rewrite <- (styled_cover_stroke cs cf p Ws Wf). split.
+  - intros (s & Hs & Hw). rewrite in_app_iff, !In_scanline_pixels in Hw.
+    destruct Hw as [[-> Hc]|[-> Hc]]; (split; [reflexivity|exists s; auto]).
+  - intros (-> & s & Hs & Hc). exists s. split; [assumption|]. rewrite in_app_iff, !In_scanline_pixels. tauto.
+Qed.
+
+Lemma In_pixels_stroke_fill cs cf sc fc p c' :
+  rrc_wf cs -> rrc_wf cf ->
+  (In (p, c') (flat_map (fun s => colored sc (scanline_points (ss_stroke_left s))
+                                   ++ colored fc (scanline_points (ss_fill_line s))
+                                   ++ colored sc (scanline_points (ss_stroke_right s)))
+                        (map (styled_scanline cf) (scanlines cs))) <->
+   rrc_contains cs p = true /\
+   ((c' = sc /\ rrc_contains cf p = false) \/ (c' = fc /\ rrc_contains cf p = true))).
+Proof.
+  intros Ws Wf. rewrite In_flat_styled. split.
+  - intros (s & Hs & Hw). rewrite !in_app_iff, !In_scanline_pixels in Hw.
+    destruct Hw as [[-> Hc]|[[-> Hc]|[-> Hc]]].
+    + assert (rrc_contains cs p = true /\ rrc_contains cf p = false) as [H1 H2]
+        by (apply (styled_cover_stroke cs cf p Ws Wf); exists s; auto). auto.
+    + assert (rrc_contains cs p = true /\ rrc_contains cf p = true) as [H1 H2]
+        by (apply (styled_cover_fill cs cf p Ws Wf); exists s; auto). auto.
+    + assert (rrc_contains cs p = true /\ rrc_contains cf p = false) as [H1 H2]
+        by (apply (styled_cover_stroke cs cf p Ws Wf); exists s; auto). auto.
+  - intros (Hcs & [[-> Hcf]|[-> Hcf]]).
+    + destruct (proj2 (styled_cover_stroke cs cf p Ws Wf) (conj Hcs Hcf)) as (s & Hs & Hc).
+      exists s. split; [assumption|]. rewrite !in_app_iff, !In_scanline_pixels. tauto.
+    + destruct (proj2 (styled_cover_fill cs cf p Ws Wf) (conj Hcs Hcf)) as (s & Hs & Hc).
+      exists s. split; [assumption|]. rewrite !in_app_iff, !In_scanline_pixels. tauto.
+Qed.
+
+Lemma In_pixels_fill cs cf fc p c' :
+  rrc_wf cs -> rrc_wf cf ->
+  (In (p, c') (flat_map (fun s => colored fc (scanline_points (ss_fill_line s))) (map (styled_scanline cf) (scanlines cs))) <->
+   c' = fc /\ rrc_contains cs p = true /\ rrc_contains cf p = true).
+Proof.
+  intros Ws Wf. rewrite In_flat_styled. rewrite <- (styled_cover_fill cs cf p Ws Wf). split.
+  - intros (s & Hs & Hw). rewrite In_scanline_pixels in Hw. destruct Hw as [-> Hc]. split; [reflexivity|exists s; auto].
+  - intros (-> & s & Hs & Hc). exists s. split; [assumption|]. rewrite In_scanline_pixels. auto.
+Qed.
+
+Theorem rr_pixels_pixmap r st bb p :
+  styled_ok r st ->
+  pix_get (writes_of_pixels bb (rr_pixels r st)) p =
+  if contains bb p
+  then spec_pixels st (rr_contains (rr_stroke_area r st)) (rr_contains (rr_fill_area r st)) p
+  else None.
+Proof.
+  intros [Hs Hf].
+  pose proof (rrc_new_wf _ Hs) as Ws. pose proof (rrc_new_wf _ Hf) as Wf.
+  unfold rr_pixels, spec_pixels, rr_contains, styled_scanlines.
+  set (cs := rrc_new (rr_stroke_area r st)) in *. set (cf := rrc_new (rr_fill_area r st)) in *.
+  destruct (contains bb p) eqn:Hb.
+  2:{ apply pix_get_none. intros c' H. apply In_writes_of_pixels in H. cbn [fst] in H. destruct H as [H _]. congruence. }
+  destruct (stroke_color st) as [sc|]; destruct (fill_color st) as [fc|].
+  - destruct (rrc_contains cs p) eqn:Hcs; [destruct (rrc_contains cf p) eqn:Hcf|].
+    + apply pix_get_some.
+      * apply In_writes_of_pixels. split; [assumption|]. apply In_pixels_stroke_fill; auto.
+      * intros c' H. apply In_writes_of_pixels in H. destruct H as [_ H]. apply In_pixels_stroke_fill in H; auto.
+        destruct H as (_ & [[_ H]|[H _]]); congruence.
+    + apply pix_get_some.
+      * apply In_writes_of_pixels. split; [assumption|]. apply In_pixels_stroke_fill; auto.
+      * intros c' H. apply In_writes_of_pixels in H. destruct H as [_ H]. apply In_pixels_stroke_fill in H; auto.
+        destruct H as (_ & [[H _]|[_ H]]); congruence.
+    + apply pix_get_none. intros c' H. apply In_writes_of_pixels in H. destruct H as [_ H].
+      apply In_pixels_stroke_fill in H; auto. destruct H as (H & _). congruence.
+  - destruct (rrc_contains cs p) eqn:Hcs; [destruct (rrc_contains cf p) eqn:Hcf|].
+    + apply pix_get_none. intros c' H. apply In_writes_of_pixels in H. destruct H as [_ H].
+      apply In_pixels_stroke in H; auto. destruct H as (_ & _ & H). congruence.
+    + apply pix_get_some.
+      * apply In_writes_of_pixels. split; [assumption|]. apply In_pixels_stroke; auto.
+      * intros c' H. apply In_writes_of_pixels in H. destruct H as [_ H]. apply In_pixels_stroke in H; auto. tauto.
+    + apply pix_get_none. intros c' H. apply In_writes_of_pixels in H. destruct H as [_ H].
+      apply In_pixels_stroke in H; auto. destruct H as (_ & H & _). congruence.
+  - destruct (rrc_contains cs p) eqn:Hcs; [destruct (rrc_contains cf p) eqn:Hcf|].
+    + apply pix_get_some.
+      * apply In_writes_of_pixels. split; [assumption|]. apply In_pixels_fill; auto.
+      * intros c' H. apply In_writes_of_pixels in H. destruct H as [_ H]. apply In_pixels_fill in H; auto. tauto.
+    + apply pix_get_none. intros c' H. apply In_writes_of_pixels in H. destruct H as [_ H].
+      apply In_pixels_fill in H; auto. destruct H as (_ & _ & H). congruence.
+    + apply pix_get_none. intros c' H. apply In_writes_of_pixels in H. destruct H as [_ H].
+      apply In_pixels_fill in H; auto. destruct H as (_ & H & _). congruence.
+  - cbn. destruct (rrc_contains cs p); [destruct (rrc_contains cf p)|]; reflexivity.
+Qed.
+
+(* stroke width 0: both areas are the same shape *)
+Lemma areas_equal_width0 r st : stroke_width st = 0 -> rr_stroke_area r st = rr_fill_area r st.
+Proof.
+  intros H. unfold rr_stroke_area, rr_fill_area. f_equal.
+  unfold stroke_area_offset, fill_area_offset, outside_stroke_width, inside_stroke_width. rewrite H.
+  destruct (stroke_alignment st), (stroke_kind st); reflexivity.
+Qed.
+
+(* C01(b): outside the class, pixels() and draw() give the same image on every target box *)
+Theorem rr_pixels_draw r st bb p :
+  styled_ok r st -> 0 <= stroke_width st -> K06_rrect_fill_outside_stroke r st = false ->
+  pix_get (writes_of_pixels bb (rr_pixels r st)) p = pix_get (writes_of_calls bb (rr_draw r st)) p.
+Proof.
+  intros Hok Hw K. rewrite rr_pixels_pixmap, rr_draw_pixmap by assumption.
+  destruct (contains bb p); [|reflexivity].
+  pose proof (K06_false_sub r st (proj2 Hok) K p) as Hsub.
+  unfold spec_pixels, spec_draw, effective_stroke_color.
+  destruct (stroke_color st) as [sc|].
+  - destruct (0 <? stroke_width st) eqn:E; [reflexivity|].
+    rewrite (areas_equal_width0 r st) by lia.
+    destruct (rr_contains (rr_fill_area r st) p); reflexivity.
+  - destruct (rr_contains (rr_fill_area r st) p) eqn:Hf.
+    + rewrite Hsub by reflexivity. reflexivity.
+    + destruct (rr_contains (rr_stroke_area r st) p); reflexivity.
+Qed.
+
+(* ------------------------------------------------------------------------------------------ *)
+(* C02: everything drawn lies in the styled bounding box; transparent styles draw nothing        *)
+(* ------------------------------------------------------------------------------------------ *)
+Lemma offset_mono r m n p :
+  rect_ok r -> 0 <= m <= bound -> 0 <= n <= bound ->
+  contains (offset r (- m)) p = true -> contains (offset r n) p = true.
+Proof.
+  intros H Hm Hn. rewrite !contains_spec. destr_rects. unf.
+  destruct (0 <=? - m) eqn:E1; destruct (0 <=? n) eqn:E2; cbn [tl sz px py sw sh]; try lia.
+  all: intros [Hx Hy]; split.
+  all: try (clear Hy; lia).
+  all: try (clear Hx; lia).
+Qed.
+
+Lemma style_offsets st :
+  0 <= stroke_width st <= bound ->
+  0 <= stroke_area_offset st <= bound /\ exists m, fill_area_offset st = - m /\ 0 <= m <= bound.
+Proof.
+  intros Hw. unfold stroke_area_offset, fill_area_offset, outside_stroke_width, inside_stroke_width.
+  unfold sat_u32_to_i32, sat_add_u32, i32_max, u32_max, bound in *.
+  split.
+  - destruct (stroke_alignment st); lia.
+  - destruct (stroke_kind st).
+    + eexists. split; [reflexivity|]. destruct (stroke_alignment st); lia.
+    + exists 0. split; [reflexivity|lia].
+Qed.
+
+Lemma styled_bbox_is_stroke_area_box r st : rr_styled_bounding_box r st = rr_bounding_box (rr_stroke_area r st).
+Proof. reflexivity. Qed.
+
+Lemma fill_area_in_styled_bbox r st p :
+  rect_ok (rr_rect r) -> 0 <= stroke_width st <= bound ->
+  contains (rr_bounding_box (rr_fill_area r st)) p = true -> contains (rr_styled_bounding_box r st) p = true.
+Proof.
+  intros Hr Hw. destruct (style_offsets st Hw) as (Hn & m & Hm & Hmb).
+  unfold rr_styled_bounding_box, rr_bounding_box, rr_fill_area, rr_offset. cbn [rr_rect]. rewrite Hm.
+  apply offset_mono; assumption.
+Qed.
+
+Theorem rr_drawn_in_bbox r st bb p :
+  styled_ok r st -> rect_ok (rr_rect r) -> 0 <= stroke_width st <= bound ->
+  pix_get (writes_of_calls bb (rr_draw r st)) p <> None -> contains (rr_styled_bounding_box r st) p = true.
+Proof.
+  intros Hok Hr Hw. rewrite rr_draw_pixmap by assumption. destruct (contains bb p); [|congruence].
+  unfold spec_draw. intros H.
+  assert (rr_contains (rr_stroke_area r st) p = true \/ rr_contains (rr_fill_area r st) p = true) as [Hs|Hf].
+  { destruct (effective_stroke_color st);
+    destruct (rr_contains (rr_stroke_area r st) p); destruct (rr_contains (rr_fill_area r st) p); auto; congruence. }
+  - rewrite styled_bbox_is_stroke_area_box. apply rr_contains_in_bbox; [apply Hok|assumption].
+  - apply fill_area_in_styled_bbox; try assumption. apply rr_contains_in_bbox; [apply Hok|assumption].
+Qed.
+
+Theorem rr_pixels_in_bbox r st bb p :
+  styled_ok r st ->
+  pix_get (writes_of_pixels bb (rr_pixels r st)) p <> None -> contains (rr_styled_bounding_box r st) p = true.
+Proof.
+  intros Hok. rewrite rr_pixels_pixmap by assumption. destruct (contains bb p); [|congruence].
+  unfold spec_pixels. destruct (rr_contains (rr_stroke_area r st) p) eqn:Hs; [|congruence]. intros _.
+  rewrite styled_bbox_is_stroke_area_box. apply rr_contains_in_bbox; [apply Hok|assumption].
+Qed.
+
+Theorem rr_transparent_draw r st : is_transparent st = true -> rr_draw r st = [].
+Proof.
+  unfold is_transparent, rr_draw, effective_stroke_color. intros H.
+  destruct (fill_color st); [rewrite andb_false_r in H; discriminate|].
+  destruct (stroke_color st); [|reflexivity].
+  cbn [orb andb] in H. rewrite andb_true_r in H. replace (0 <? stroke_width st) with false by lia. reflexivity.
+Qed.
+
+Theorem rr_transparent_pixels r st bb p :
+  styled_ok r st -> is_transparent st = true ->
+  pix_get (writes_of_pixels bb (rr_pixels r st)) p = None.
+Proof.
+  intros Hok H. rewrite rr_pixels_pixmap by assumption. destruct (contains bb p); [|reflexivity].
+  unfold spec_pixels. unfold is_transparent in H.
+  destruct (fill_color st); [rewrite andb_false_r in H; discriminate|].
+  destruct (stroke_color st).
+  - cbn [orb andb] in H. rewrite andb_true_r in H. rewrite (areas_equal_width0 r st) by lia.
+    destruct (rr_contains (rr_fill_area r st) p); reflexivity.
+  - destruct (rr_contains (rr_stroke_area r st) p); [destruct (rr_contains (rr_fill_area r st) p)|]; reflexivity.
+Qed.
+
+(* ------------------------------------------------------------------------------------------ *)
+(* C06: geometry of the two areas; the refutation witness of the unrestricted statement           *)
+(* ------------------------------------------------------------------------------------------ *)
+Lemma stroke_area_box r st : rr_rect (rr_stroke_area r st) = offset (rr_rect r) (stroke_area_offset st).
+Proof. reflexivity. Qed.
+Lemma fill_area_box r st : rr_rect (rr_fill_area r st) = offset (rr_rect r) (fill_area_offset st).
+Proof. reflexivity. Qed.
+
+(* inside stroke: the stroke area is the shape itself; outside stroke: the fill area is the shape itself *)
+Lemma rr_offset_zero r : rr_ok r -> (forall s, In s [r_tl (rr_corners r); r_tr (rr_corners r); r_br (rr_corners r); r_bl (rr_corners r)] -> sw s <= u32_max /\ sh s <= u32_max) -> rr_offset r 0 = r.
+Proof.
+  intros [Hr (H1 & H2 & H3 & H4)] Hb. destruct r as [rc [c1 c2 c3 c4]]. unfold rr_offset. cbn [rr_rect rr_corners r_tl r_tr r_br r_bl] in *.
+  rewrite offset_zero by assumption. cbn [Z.leb].
+  pose proof (Hb c1 ltac:(cbn; auto)). pose proof (Hb c2 ltac:(cbn; auto)).
+  pose proof (Hb c3 ltac:(cbn; auto)). pose proof (Hb c4 ltac:(cbn; auto)).
+  unfold sz_nonneg in *.
+  assert (forall s, 0 <= sw s <= u32_max -> 0 <= sh s <= u32_max -> size_sat_add s (S 0 0) = s) as E.
+  { intros [a b]. cbn [sw sh]. unfold size_sat_add, sat_add_u32. cbn [sw sh]. intros. f_equal; lia. }
+  rewrite !E by lia. reflexivity.
+Qed.
+
+Definition finding_r : rrect := RR (R (P 0 0) (S 4 29)) (CR (S 0 0) (S 0 0) (S 9 51) (S 0 0)).
+Definition finding_st : style := Style (Some 5) (Some 7) 1 Inside Solid.
+
+Lemma rr_styled_spec_refuted :
+  exists r st bb p,
+    styled_ok r st /\ rr_ok r /\ K06_rrect_fill_outside_stroke r st = true /\ contains bb p = true /\
+    pix_get (writes_of_calls bb (rr_draw r st)) p <>
+    spec_c06 st (rr_contains (rr_stroke_area r st)) (rr_contains (rr_fill_area r st)) p.
+Proof.
+  exists finding_r, finding_st, (R (P (-5) (-5)) (S 40 40)), (P 1 27).
+  assert (forall r, (let '(RR (R (P x y) (S w h)) (CR (S a1 b1) (S a2 b2) (S a3 b3) (S a4 b4))) := r in
+            andb (Z.abs x <=? bound) (andb (Z.abs y <=? bound) (andb (0 <=? w) (andb (w <=? bound) (andb (0 <=? h) (andb (h <=? bound)
+            (andb (0 <=? a1) (andb (0 <=? b1) (andb (0 <=? a2) (andb (0 <=? b2) (andb (0 <=? a3) (andb (0 <=? b3) (andb (0 <=? a4) (0 <=? b4)))))))))))))) = true -> rr_ok r) as D.
+  { intros [[[x y] [w h]] [[a1 b1] [a2 b2] [a3 b3] [a4 b4]]]. unfold rr_ok, rect_ok, point_ok, size_ok, radii_nonneg, sz_nonneg.
+    cbn [rr_rect rr_corners r_tl r_tr r_br r_bl tl sz px py sw sh]. lia. }
+  split; [split; apply D; vm_compute; reflexivity|].
+  split; [apply D; vm_compute; reflexivity|].
+  split; [vm_compute; reflexivity|]. split; [vm_compute; reflexivity|].
+  vm_compute. discriminate.
+Qed.
+
+Definition radii_u32 (r : rrect) : Prop :=
+  forall s, In s [r_tl (rr_corners r); r_tr (rr_corners r); r_br (rr_corners r); r_bl (rr_corners r)] ->
+            sw s <= u32_max /\ sh s <= u32_max.
+
+(* an inside stroke never paints outside the shape *)
+Theorem rr_inside_stroke_stays_in r st bb p :
+  styled_ok r st -> rr_ok r -> radii_u32 r -> K06_rrect_fill_outside_stroke r st = false ->
+  stroke_alignment st = Inside ->
+  pix_get (writes_of_calls bb (rr_draw r st)) p <> None -> rr_contains r p = true.
+Proof.
+  intros Hok Hr Hu K Ha. rewrite rr_styled_spec by assumption. destruct (contains bb p); [|congruence].
+  pose proof (K06_false_sub r st (proj2 Hok) K p) as Hsub.
+  assert (rr_stroke_area r st = r) as E.
+  { unfold rr_stroke_area, stroke_area_offset, outside_stroke_width. rewrite Ha. apply rr_offset_zero; assumption. }
+  rewrite E in *. unfold spec_c06.
+  destruct (rr_contains (rr_fill_area r st) p) eqn:Hf; [intros _; apply Hsub; reflexivity|].
+  destruct (rr_contains r p); [reflexivity|]. cbn [andb]. congruence.
+Qed.
+
+(* an outside stroke never paints inside the shape: points of the shape get the fill colour (or nothing) *)
+Theorem rr_outside_stroke_stays_out r st bb p :
+  styled_ok r st -> rr_ok r -> radii_u32 r -> K06_rrect_fill_outside_stroke r st = false ->
+  stroke_alignment st = Outside -> rr_contains r p = true ->
+  pix_get (writes_of_calls bb (rr_draw r st)) p = if contains bb p then fill_color st else None.
+Proof.
+  intros Hok Hr Hu K Ha Hp. rewrite rr_styled_spec by assumption. destruct (contains bb p); [|reflexivity].
+  assert (rr_fill_area r st = r) as E.
+  { unfold rr_fill_area, fill_area_offset, inside_stroke_width. rewrite Ha.
+    destruct (stroke_kind st); apply rr_offset_zero; assumption. }
+  unfold spec_c06. rewrite E, Hp. reflexivity.
+Qed.
